@@ -7,7 +7,7 @@ need_pi(atom, sigma)   the local OpenSMILES rule for the standard aromatic atom 
 has_perfect_matching   brute force (exponential, only for small graphs) / exact via recursion on the lowest vertex.
 """
 
-NORMAL_VALENCES = {"C": (4,), "N": (3, 5), "O": (2,), "P": (3, 5), "S": (2, 4, 6)}
+NORMAL_VALENCES = {"C": (4,), "N": (3, 5), "O": (2,), "P": (3, 5), "S": (2, 4)}      # S(VI) in an aromatic ring is not a standard kind
 
 
 def need_pi(atom, bondsum):
